@@ -71,6 +71,7 @@ type profJ struct {
 	Cmds     []string `json:"cmds"`
 	Unique   bool     `json:"unique"`
 	Dup      bool     `json:"dup"`
+	Arch     int      `json:"arch"`
 }
 
 type matchJ struct {
@@ -83,7 +84,7 @@ type caseJ struct {
 	Header   bool             `json:"header"`
 	Vocab    []lineJ          `json:"vocab"`
 	Profiles map[string]profJ `json:"profiles"`
-	Init     []treeJ          `json:"init"`
+	Init     [][]treeJ        `json:"init"`
 	Str      map[string][]int `json:"str"`
 	BadPats  []string         `json:"badpats"`
 	MatchTab []matchJ         `json:"matchtab"`
